@@ -194,7 +194,30 @@ class StepInterp(Evaluator):
             raise AnalysisError("%s: assignment target %s" % (self.fn.name, src(target)))
 
 
-def interpret(fn, sorts, option):
+FALLBACKS = []
+
+
+def interpret(fn, sorts, option, repo=None, engine=None):
+    """By unrolling (rules/stepprog.py); the small symbolic interpreter below is the fall-back for a step outside the unrolling fragment.
+    -> (result, outcome, engine used); a step and its reference are always interpreted by the same engine."""
+    from . import stepprog
+    if engine in (None, "unrolled"):
+        try:
+            return stepprog.interpret(fn, sorts, option, repo) + ("unrolled",)
+        except SortError:
+            raise
+        except AnalysisError as first:
+            if engine == "unrolled":
+                raise
+            FALLBACKS.append("%s[%s]: %s" % (fn.name, option, first))
+            try:
+                return _interpret_symbolic(fn, sorts, option) + ("symbolic",)
+            except AnalysisError:
+                raise first
+    return _interpret_symbolic(fn, sorts, option) + ("symbolic",)
+
+
+def _interpret_symbolic(fn, sorts, option):
     it = StepInterp(fn, sorts, option)
     try:
         it.run(fn.body)
@@ -281,12 +304,14 @@ def load_spec():
     return fns, sorts
 
 
-def step_functions(repo):
+def step_functions(repo, spec_names=()):
     out = {}
     for rel, m in repo.modules.items():
         if rel.startswith("PEPit/primitive_steps/") and not rel.endswith("__init__.py"):
+            base = os.path.basename(rel)[:-3]
             for name, fn in m.functions.items():
-                if not name.startswith("_"):
+                # the step of a module is the public function the module is named after (others are helpers: followed when the step calls them)
+                if not name.startswith("_") and (name == base or name in spec_names):
                     out[name] = fn
     return out
 
@@ -306,7 +331,7 @@ def r_addconstraint(ctx):
 
 def run(ctx):
     spec_fns, sorts = load_spec()
-    steps = step_functions(ctx.repo)
+    steps = step_functions(ctx.repo, set(spec_fns))
     ctx.count("step functions", len(steps))
     npaths = 0
     for name, fn in sorted(steps.items()):
@@ -317,10 +342,10 @@ def run(ctx):
         srt = sorts[name]
         has_opt = "option" in srt
         # option literals of the reference and of the implementation
-        probe_s, _ = interpret(sfn, srt, "\0none")
+        probe_s, _, _e = interpret(sfn, srt, "\0none")
         lits_s = probe_s.option_literals
         try:
-            probe_i, out_i = interpret(fn, srt, "\0none")
+            probe_i, out_i, _e = interpret(fn, srt, "\0none", ctx.repo)
             lits_i = probe_i.option_literals
         except (SortError, AnalysisError) as e:
             ctx.ob("R-STEP", "%s" % name, False, "not interpretable: %s" % e, loc(fn, fn))
@@ -341,8 +366,8 @@ def run(ctx):
             key = "%s[%s]" % (name, opt) if opt is not None else name
             ctx.count("programs")
             try:
-                si, so = interpret(sfn, srt, opt)
-                ii, io = interpret(fn, srt, opt)
+                ii, io, eng = interpret(fn, srt, opt, ctx.repo)
+                si, so, _e = interpret(sfn, srt, opt, None, engine=eng)
             except SortError as e:
                 ctx.ob("R-STEP", key, False, "operand kinds: %s" % e, loc(fn, fn))
                 continue
@@ -359,6 +384,9 @@ def run(ctx):
             ctx.sample({"step": key, "returns": [str(v) for v in (ii.ret or [])],
                         "events": [(e[0], e[1], str(e[2])) for e in ii.events], "verdict": "equal" if why is None else why})
     ctx.count("step paths", npaths)
+    for f0 in sorted(set(FALLBACKS)):
+        ctx.notes.append("R-STEP: unrolling left the fragment, symbolic interpreter used instead: %s" % f0)
+    del FALLBACKS[:]
     # the steps record through Function.add_point / add_constraint: these must register what they are given on every path
     from . import c07
     c07.r_addpoint(ctx)
